@@ -471,6 +471,9 @@ class RejectsMixin:
             a = step["any"]
             b = next(n for n in names if n != a)
             key = self.col(step, t, a, rep) if step["via"] != "own" else a
+            if step["nest"] in ("case_branch", "ctx_kwarg"):
+                # the target name is pinned by an identity entry of the same map
+                return t >> pdt.rename({b: b, key: b})
             return t >> pdt.rename({key: b})
         if rule == "rename_two_onto_one":
             names = t >> pdt.columns()
